@@ -9,7 +9,7 @@ every earlier build of the same object; nothing is relaxed under scheduling faul
 import hashlib
 import json
 
-from sim import core, simpool
+from sim import core, simpool, seams
 
 ID = "C03"
 
@@ -65,14 +65,15 @@ def sizes(tier):
 # plan generation (the only place that consumes the PRNG)
 # ----------------------------------------------------------------------------------------------
 def gen_config(rng, big=False):
-    n_wfs = rng.weighted([(1, 1), (2, 4), (3, 4), (4, 2)] + ([(5, 2), (6, 1)] if big else []))
+    many = rng.chance(0.03)          # a large asterism (more than ten sensors) of tiny sensors
+    n_wfs = rng.choice([11, 12, 13]) if many else rng.weighted([(1, 1), (2, 4), (3, 4), (4, 2)] + ([(5, 2), (6, 1)] if big else []))
     tel = round(rng.uniform(1.0, 10.0), 3)
     share_mask = rng.chance(0.3)
-    base_nx = rng.randint(2, 7 if big else 5)
+    base_nx = 2 if many else rng.randint(2, 7 if big else 5)
     masks, diams = [], []
     for w in range(n_wfs):
-        nx = base_nx if (share_mask or rng.chance(0.6)) else rng.randint(2, 5)
-        ny = nx if rng.chance(0.8) else rng.randint(2, 5)
+        nx = base_nx if (many or share_mask or rng.chance(0.6)) else rng.randint(2, 5)
+        ny = nx if (many or rng.chance(0.8)) else rng.randint(2, 5)
         if share_mask and masks:
             m = [row[:] for row in masks[0]]
         else:
@@ -105,8 +106,9 @@ def gen_config(rng, big=False):
     }
 
 
-def gen_sched(rng):
-    """one schedule: everything the simulated OS decides for one build"""
+def gen_sched(rng, faults=False):
+    """one schedule: everything the simulated OS decides for one build (faults: also inject a failing task; only the C03
+    world does that - its oracle knows that a build may then legitimately raise)"""
     style = rng.weighted([("uniform", 2), ("jitter", 4), ("heavy", 3), ("reverse", 2), ("ties", 2)])
     n = rng.randint(4, 24)
     if style == "uniform":
@@ -128,6 +130,8 @@ def gen_sched(rng):
              "tslice": [rng.choice([1, 2, 3, 5, 8, 13, 40, 200]) for _ in range(rng.randint(1, 12))],
              # bounded waits (get / next with a timeout) on a result that is not there yet: time out (1) or arrive just in time (0)
              "tmo": [rng.choice([0, 1, 1]) for _ in range(rng.randint(1, 6))],
+             # failing allocation inside a worker: the n-th task of the build raises MemoryError instead of returning
+             "fail": ([rng.randrange(12)] if (faults and rng.chance(0.06)) else []),
              "advance": rng.weighted([(0, 6), (1, 1), (3, 1), (50, 1)])}
     if rng.chance(0.35):
         for _ in range(rng.randint(1, 2)):
@@ -166,7 +170,7 @@ def gen_plan(rng, tier, index=0):
         o = r.randrange(n_obj)
         if op == "build":
             k = r.weighted([(1, 3), (2, 3), (3, 2), (4, 2), (5, 1), (6, 1), (8, 1)])
-            steps.append({"op": "build", "obj": o, "threads": k, "sched": gen_sched(r.sub("sched", s)),
+            steps.append({"op": "build", "obj": o, "threads": k, "sched": gen_sched(r.sub("sched", s), faults=True),
                           "mode": "forked" if (forked_run and k > 1) else "inproc"})
         elif op == "recon":
             steps.append({"op": "recon", "obj": o, "cond": r.choice([0.0, 0.0, 1e-3, 0.05, None, None])})      # None: call without the argument
@@ -280,6 +284,17 @@ def execute(plan, keep_log=False):
 def _run_steps(plan, sc, res, log, kern, objs_cfg, n_obj, refs, objs, last, built, hist, reference, obj):
     import numpy
     held = []
+    poison = seams.Poison()
+    poison.install()
+    try:
+        _run_steps2(plan, sc, res, log, kern, objs_cfg, n_obj, refs, objs, last, built, hist, reference, obj, held, poison)
+    finally:
+        poison.on = False
+        poison.uninstall()
+
+
+def _run_steps2(plan, sc, res, log, kern, objs_cfg, n_obj, refs, objs, last, built, hist, reference, obj, held, poison):
+    import numpy
     for si, st in enumerate(plan["steps"]):
         o = st["obj"] % n_obj
         op = st["op"]
@@ -303,6 +318,7 @@ def _run_steps(plan, sc, res, log, kern, objs_cfg, n_obj, refs, objs, last, buil
                 log.add(si, "bad_build", o, "returned")
             except BaseException as e:
                 log.add(si, "bad_build", o, type(e).__name__)
+            last.pop(o, None)
             try:
                 c.threads = old_threads
             except Exception:
@@ -382,6 +398,8 @@ def _run_steps(plan, sc, res, log, kern, objs_cfg, n_obj, refs, objs, last, buil
         res.count("op.build.mp" if k_threads > 1 else "op.build.sp")
         kern.configure(st.get("sched"), st.get("mode", "inproc"))
         kern.maps = []
+        kern.failed_tasks = 0
+        poison.on = True          # numpy.empty called from aotools code returns garbage that differs per allocation
         t_start = kern.now
         unc0 = kern.uncontrolled
         outcome = None
@@ -393,6 +411,7 @@ def _run_steps(plan, sc, res, log, kern, objs_cfg, n_obj, refs, objs, last, buil
                 outcome = ("deadlock", str(e))
             except Exception as e:
                 outcome = ("raised", type(e).__name__, str(e))
+            poison.on = False
             res.sim_time += kern.now - t_start
             if kern.uncontrolled > unc0:
                 res.count("uncontrolled_concurrency", kern.uncontrolled - unc0)
@@ -418,6 +437,13 @@ def _run_steps(plan, sc, res, log, kern, objs_cfg, n_obj, refs, objs, last, buil
         if ref[0] != "ok":
             # the single-process reference itself fails for this configuration: nothing to compare with
             res.inconclusive.append("reference build raised %s" % ref[1])
+            continue
+        if outcome[0] != "ok":
+            last.pop(o, None)          # after a failed build the object holds no matrix the caller was given
+        if kern.failed_tasks and outcome[0] == "raised":
+            # a worker ran out of memory: the build may fail (it does on the unchanged tree) - it must not return wrong data,
+            # and the next build must be right again
+            res.count("fault.build_failed_after_injected_MemoryError")
             continue
         if outcome[0] == "deadlock":
             res.violate("deadlock", "C03:build-would-hang", "object %d threads=%d: %s" % (o, k_threads, outcome[1]), si)
